@@ -430,6 +430,28 @@ def check_module(run, rule, modname, funcs=None, only_funcs=None):
     mod = project.mod(modname)
     defined_funcs = {n.name for n in mod.tree.body if isinstance(n, (ast.FunctionDef, ast.ClassDef))}
     _key_consistency(run, rule, project, modname, tabs, ev, modfuncs)
+    # which tables hand their content back to a caller?  (a remembered *result*; a table that is only consulted for decisions --
+    # readiness flags, a set of seen items -- is state of an algorithm, and what its entries "depend on" is its business)
+    handed_back = set()
+    all_results = {}
+    for f in [g_ for g_ in project.functions_in(modname) if g_.module.kind == "py"]:
+        names_used = {n_.id for n_ in own_nodes(f.node) if isinstance(n_, ast.Name)} | {n_.attr for n_ in own_nodes(f.node) if isinstance(n_, ast.Attribute)}
+        cand = [k for k in tabs if k.split(".")[-1] in names_used]
+        if not cand:
+            continue
+        try:
+            rr = all_results[f.qual] = ev.run(f.node)
+        except Exception:
+            continue
+        outs = [v for _pc, v, _n in rr.returns] + [v for _pc, v, _n in rr.yields]
+        for k in cand:
+            short = k.split(".")[-1]
+            def is_tab(t):
+                return (t[0] == "sym" and t[1].split("@")[0] == short) or (t[0] == "attr" and t[2] == short and t[1] in (("sym", "self"), ("sym", "cls")))
+            for v in outs:
+                if any((a[0] in ("sub", "item") and is_tab(a[1])) or (a[0] == "call" and a[1][0] == "attr" and a[1][2] in ("get", "setdefault", "pop") and is_tab(a[1][1]))
+                       for a in _all_subterms(v)) or is_tab(v):
+                    handed_back.add(k)
     n_uses += check_cached_functions(run, rule, modname)
     if only_funcs is None:
         n_uses += check_attribute_caches(run, rule, modname)
@@ -464,6 +486,11 @@ def check_module(run, rule, modname, funcs=None, only_funcs=None):
             muts = [e for e in r.events if e.kind == "call" and e.term[1][0] == "attr" and same_table(e.term[1][1])
                     and e.term[1][2] in sym.MUTATORS]
             # (a) memo-key completeness
+            tab_key = [k for k in tabs if k.split(".")[-1] == name]
+            if stores and tab_key and not any(k in handed_back for k in tab_key) and kind == "instance":
+                run.holds(rule, f, stores[0].node, "instance table `%s` is consulted for decisions only (no function hands its entries back): algorithm state, not a "
+                          "remembered result" % name, table=name)
+                continue
             for e in stores:
                 key = e.term[1][0][2] if e.term[1][0][0] == "sub" else sym.num(e.term[1][0][2])
                 val = e.term[1][1]
@@ -481,6 +508,13 @@ def check_module(run, rule, modname, funcs=None, only_funcs=None):
                         # stand for values that differ from call to call)
                     if not any(p == q or p.startswith(q + ".") or p.startswith(q + "#") or p.startswith(q + "[") for q in kp):
                         missing.add(p)
+                # an accumulator (`t[k] = t.get(k, 0) | bit`, `t[k] = t[k] + x`): the new value is built from what the table already
+                # holds under this key -- that is state being updated, not a remembered result that a later call could wrongly reuse
+                reads_self = [a for a in _all_subterms(val) if (a[0] in ("sub", "item") and same_table(a[1])) or
+                              (a[0] == "call" and a[1][0] == "attr" and a[1][2] in ("get", "setdefault", "pop") and same_table(a[1][1]))]
+                if reads_self:
+                    run.holds(rule, f, e.node, "table `%s` is an accumulator (the stored value is computed from the entry it replaces)" % name, table=name)
+                    continue
                 vol = volatile_reads(val)
                 if vol:
                     run.violated(rule, f, e.node, "%s table `%s` remembers a reading of the outside world (%s) under key %s: when another process (a parallel "
